@@ -305,9 +305,9 @@ func MemoryProbe(r *rand.Rand) []byte {
 // GrowLoop stores to memory at a growing offset until gas runs out (memory growth paid each round).
 func GrowLoop(stride uint64) []byte {
 	a := NewAsm()
-	a.Push(0)                                                 // i
-	a.Label("l").Op(vm.DUP1, vm.DUP1, vm.MSTORE)              // mem[i] = i
-	a.Push(stride).Op(vm.ADD)                                 // i += stride
+	a.Push(0)                                    // i
+	a.Label("l").Op(vm.DUP1, vm.DUP1, vm.MSTORE) // mem[i] = i
+	a.Push(stride).Op(vm.ADD)                    // i += stride
 	a.Jump("l")
 	return a.Bytes()
 }
